@@ -69,6 +69,52 @@ prop("C18", "exploration",
      ["TZ=UTC; the fake clock of testing/synctest stands in for the wall clock",
       "soundness is only demanded when no exact record lies within one day of the window (the look-up may visit one day beyond it)"])
 
+STAGE_ASSUME = [
+    "receiver world W1r: a real stage.Stage + log.FileIO on a temp directory inside one testing/synctest bubble per process (fake clock); "
+    "the harness plays the data route (Prepare, then Receive per part until the first error), the recovery and poll routes",
+    "a receiver restart moves the root directory to a fresh path and starts a new Stage with Recover(); the abandoned instance keeps running on the old, empty path",
+    "steps are not separated by settling unless drawn, so validators and the finalizer race with the next request; oracles are written to hold for every such interleaving",
+]
+
+prop("C01", "exploration",
+     "W1r: 1-4 files (sizes 1..6 parts+2, equal leaf names in different directories, optional rename, optional predecessor forest), part size 1-8, "
+     "parts delivered in a drawn permutation over requests of 1-3 parts (several files per request), faults per part (byte flipped in transit, reader "
+     "failing midway, connection cut before the part), staged partial overwritten on disk, wrong announced hash, retransmissions, new versions of a "
+     "name, receiver restarts; every arrival in the final directory is compared with the versions the harness created and with the receive log; "
+     "non-trivial = some file needs > 1 part AND (a fault, a retransmission or a restart occurred)",
+     [dict(pkg="stagex", test="TestC01Stage", world="W1r", quick=1600, thorough=48000, per_proc=100, shrink_runs=200,
+           required_classes=["fault-1", "staged-overwrite", "restart", "wrong-announced-hash", "corrupt-complete-copy"])],
+     STAGE_ASSUME + ["corruptions are single-byte flips/overwrites, not md5 collisions; a staged copy is only overwritten while it is a partial (no receiver can detect a change made after validation)"])
+
+prop("C04", "exploration",
+     "W1r: 1-7 files whose announced predecessors form chains, forests or graphs with self references and cycles; parts of all files interleaved in a "
+     "drawn order with faults, retransmissions, receiver restarts (predecessor known only from the log), CleanNow/Prune and simulated waits that fire the "
+     "10 s retry and the 30 min cleaner; oracle: in the receive log no record of F precedes the first record of its predecessor unless F's chain runs "
+     "into a cycle and a cleaner run was possible; a held file polls as waiting; deliverable files are delivered by the end; non-trivial = some file "
+     "was complete and validated before its predecessor was delivered (observed held in staging)",
+     [dict(pkg="stagex", test="TestC04Stage", world="W1r", quick=1600, thorough=48000, per_proc=100, shrink_runs=200,
+           required_classes=["held-for-predecessor", "delivered-after-predecessor", "cycle-released", "restart"])],
+     STAGE_ASSUME + ["every version announces one fixed predecessor; end-to-end order through a real sender is judged in the simulation checks"])
+
+prop("C05", "exploration",
+     "W1r: base transfers plus retransmission histories (any part again before completion, after completion, after validation while held, after delivery, "
+     "after a clean restart), faults, cleaning, optional 25 h waits; oracle: per (name, hash) at most one arrival (arrivals are consumed, so a second copy "
+     "is a second arrival) and one log record; a delivered version polls as passed and all its parts are answered as received; "
+     "non-trivial = a part was retransmitted after its file was complete",
+     [dict(pkg="stagex", test="TestC05Stage", world="W1r", quick=1600, thorough=48000, per_proc=100, shrink_runs=200,
+           required_classes=["dup-after-complete", "dup-after-delivery", "restart"])],
+     STAGE_ASSUME + ["content never reverts to an earlier version, so a second arrival of (name, hash) is always a duplicate delivery"])
+
+prop("C09", "exploration",
+     "W1r: 1-3 files, parts from a tiling plus (optional) an interval grammar of overlapping / nested / repeated ranges, in any order, readers that end "
+     "early (cleanly or with an error) or corrupt a byte, new versions of a name with the same or another size; queries Received([...]) with tiling and "
+     "arbitrary ranges, partials listing; oracle = byte-range reference model: everything the receiver claims (listing, Received, completeness) is covered "
+     "by acknowledged ranges of that version and the staged bytes equal what was sent; acknowledged ranges stay listed until the file is complete or the "
+     "version changes; non-trivial = multi-part file AND (fault, retransmission, overlap profile or version change)",
+     [dict(pkg="stagex", test="TestC09Stage", world="W1r", quick=1600, thorough=48000, per_proc=100, shrink_runs=200,
+           required_classes=["fault-2", "name-reuse", "scan-nonempty"])],
+     STAGE_ASSUME + ["Received() answering 'no' for a range that is held is an under-claim and not judged here (it costs a retransmission, see C07/C08)"])
+
 # ---------------------------------------------------------------------------
 # texts for MANIFEST.json (tools/mkmanifest.py)
 
@@ -110,5 +156,28 @@ MANIFEST_TEXT["C18"] = dict(
          "names containing ':' are recorded as known and set aside by key.",
     note="log.FileIO runs on testing/synctest's fake clock; one bubble per process; failures are minimised by the harness's "
          "own replay-based shrinker.")
+
+STAGE_NOTE = ("Real stage.Stage and log.FileIO driven through the GateKeeper interface on a fake clock; the harness, not an HTTP server, plays the "
+              "routes. Failures are minimised by the harness's replay-based shrinker; schedule-dependent ones are reported with the recorded history.")
+MANIFEST_TEXT["C01"] = dict(
+    technique="property-based testing with fault injection on a fake clock (rapid + testing/synctest): generated transfer histories, oracle = every arrival equals an announced, hash-matching source version and is logged",
+    text="Generated-history search: nothing reaches the final directory unless it is byte-identical to a version whose announced MD5 it has and the "
+         "log records it; corrupt complete copies are reported failed. Receiver-level here; sender-side clauses are checked in the simulation units.",
+    note=STAGE_NOTE)
+MANIFEST_TEXT["C04"] = dict(
+    technique="property-based testing on a fake clock: generated predecessor graphs and arrival histories, invariant over the receive-log order",
+    text="Generated predecessor chains/forests/cycles with arbitrary arrival orders, restarts and timer firings; invariant: a file's log record never "
+         "precedes its predecessor's (except cycle release after a cleaner run), held files poll as waiting, deliverable files are released.",
+    note=STAGE_NOTE)
+MANIFEST_TEXT["C05"] = dict(
+    technique="property-based testing on a fake clock: generated retransmission histories, oracle = at most one arrival and one log record per (name, hash)",
+    text="Generated retransmission histories at every stage of a file's life; arrivals are consumed so that a second delivery is observable; "
+         "delivered versions must be recognised (passed / parts received).",
+    note=STAGE_NOTE)
+MANIFEST_TEXT["C09"] = dict(
+    technique="model-based property testing: byte-range reference model vs. companion listing, Received() answers and completeness",
+    text="Reference model of acknowledged byte ranges per (name, hash): listing and Received() may only claim covered ranges with identical staged "
+         "bytes, completeness requires full coverage, acknowledged ranges stay listed.",
+    note=STAGE_NOTE)
 
 NOT_CLAIMED = {}
